@@ -42,6 +42,8 @@ var vC06Docs = []string{
 	vC06Cycle(7, true),
 	// 12: two faults found by two different final checks (response without a body, request without a body) and an INFO without a title
 	"JSIGHT 0.3\nGET /a\n  200\n    Headers\n    {\"h\": 1}\nPOST /b\n  Request\n    Headers\n    {\"h\": 2}\n  200 any\n",
+	// 13: a regex type referred to by two types, a response and an inline body: the generated EXAMPLES must not depend on map order
+	"JSIGHT 0.3\nTYPE @id regex\n/[a-z]{3}/\nTYPE @person\n{\n  \"id\": @id\n}\nTYPE @pet\n{\n  \"id\": @id\n}\nGET /p\n  200 @person\nGET /q\n  200\n  {\"tag\": @id}\n",
 }
 
 func vC06Cycle(faults int, enum bool) string {
@@ -84,7 +86,7 @@ func HDeterminism() {
 			vAssert(jeA.File.Name() == jeB.File.Name() && jeA.Index == jeB.Index, "c06-error-location-depends-on-map-order")
 			vAssert(jeA.Error() == jeB.Error(), "c06-include-trace-depends-on-map-order")
 		} else {
-			vSameDigest(vDigestDeep(cA), vDigestDeep(cB), "c06-catalog-depends-on-map-order")
+			vSameDigest(vEmit(cA), vEmit(cB), "c06-catalog-depends-on-map-order") // with the examples the emitter writes
 		}
 	}
 	if jeA != nil {
